@@ -195,6 +195,8 @@ static std::string short_fn(const std::string &fn) {
   return s;
 }
 
+std::string asan_also_prop;
+
 static void asan_cb(const char *report) {
   if (!cur) return;
   cur->asan_reports++;
@@ -250,6 +252,8 @@ static void asan_cb(const char *report) {
   // C02: the statement itself says the failing look-ups must not touch foreign memory
   if (cur->op == "locate_absent" || cur->op == "extract_bad")
     cur->event("C02", ("asan:" + cls + ":" + rw).c_str(), first + " [" + chain + "]", "C02/" + sig);
+  if (!asan_also_prop.empty())
+    cur->event(asan_also_prop.c_str(), ("asan:" + cls + ":" + rw).c_str(), first + " [" + chain + "]", asan_also_prop + "/" + sig);
 }
 
 // ------------------------------------------------------------ fatal signals inside library calls
